@@ -144,10 +144,11 @@ type attached struct {
 	conn *memconn.Conn
 	pc   *pacer
 
-	second     bool // the consumer of the second stream
-	resumedMid bool // it resumed in the middle of the stall phase
-	resumedAt  int  // first message published after it had resumed and its queue had been seen draining (-1: not known)
-	slowOn     bool
+	second      bool  // the consumer of the second stream
+	resumedMid  bool  // it resumed in the middle of the stall phase
+	recvAtDrain int64 // bytes received when its queue had been seen draining
+	resumedAt   int   // first message published after it had resumed and its queue had been seen draining (-1: not known)
+	slowOn      bool
 }
 
 func (a *attached) kind() string { return a.spec.Kind }
@@ -164,10 +165,12 @@ type runner struct {
 	cons               []*attached
 	c2                 *attached
 	P, P2              []lalclient.Rec
+	items, items2      []gen.Item // what was published, as items (content oracle of the remuxed outputs)
 	lat                latency
 	ticks              uint32
 	httpWriteTimeoutMs int
-	inStal             bool // the stall phase is running: slow messages are sampled for a parked fan-out
+	sendParked         string // stack of the fan-out goroutine if it was seen parked during the send in progress
+	inStal             bool   // the stall phase is running: slow messages are sampled for a parked fan-out
 }
 
 func nalHdrs(c gen.Codecs) (inter, key []byte) {
@@ -209,6 +212,7 @@ func rec(it gen.Item, c gen.Codecs) lalclient.Rec {
 // send publishes one item on the first stream.
 func (r *runner) send(it gen.Item) *pbt.Violation {
 	r.P = append(r.P, rec(it, r.c.Codecs))
+	r.items = append(r.items, it)
 	if err := r.p.SendItem(it, r.c.Codecs, 0); err != nil {
 		if v := r.s.PanicViolation(); v != nil {
 			return v
@@ -220,6 +224,7 @@ func (r *runner) send(it gen.Item) *pbt.Violation {
 
 func (r *runner) send2(it gen.Item) *pbt.Violation {
 	r.P2 = append(r.P2, rec(it, r.c.Codecs))
+	r.items2 = append(r.items2, it)
 	if err := r.p2.SendItem(it, r.c.Codecs, 0); err != nil {
 		if v := r.s.PanicViolation(); v != nil {
 			return v
@@ -251,10 +256,14 @@ func (r *runner) waitConsumed(p *lalclient.Publisher, second bool) *pbt.Violatio
 	samples := 0
 	for n := 1; !p.Conn.WaitPeerIdle(5 * time.Millisecond); n++ {
 		r.grantSlow(5)
-		if r.inStal && samples < 3 && n%5 == 0 {
+		// looked at after 25, 50 and 75 ms, and (for the single-send rule) every 200 ms as long as it was not seen parked
+		if r.inStal && ((samples < 3 && n%5 == 0) || (r.sendParked == "" && n%40 == 0)) {
 			samples++
 			if stuck, stack := parkedFanout(15 * time.Millisecond); stuck {
-				r.lat.evidence(second, stack)
+				if r.sendParked == "" {
+					r.lat.evidence(second, stack)
+				}
+				r.sendParked = stack
 				samples = 3
 			}
 		}
@@ -281,10 +290,14 @@ func (r *runner) waitConsumed(p *lalclient.Publisher, second bool) *pbt.Violatio
 func (r *runner) step(it gen.Item, ph *phase) *pbt.Violation {
 	c := r.c
 	t0 := time.Now()
+	r.sendParked = ""
 	if v := r.send(it); v != nil {
 		return v
 	}
 	if v := r.waitConsumed(r.p, false); v != nil {
+		return v
+	}
+	if v := r.lat.single(r, false, time.Since(t0)); v != nil {
 		return v
 	}
 	if ph != nil {
@@ -292,6 +305,9 @@ func (r *runner) step(it gen.Item, ph *phase) *pbt.Violation {
 	}
 	key := recKey(r.P[len(r.P)-1])
 	for i, a := range r.cons {
+		if !a.spec.Stall && a.rc == nil && a.conn.PeerGone() {
+			return pbt.V("S2/healthy-consumer-disconnected/"+a.kind(), "healthy consumer %d (%s) lost its connection while other consumers were stalled (published message %d)", i, a.kind(), len(r.P)-1)
+		}
 		if a.spec.Stall || !a.measurable(c) || !a.rc.flowing() {
 			continue
 		}
@@ -313,10 +329,14 @@ func (r *runner) step(it gen.Item, ph *phase) *pbt.Violation {
 		return nil
 	}
 	t0 = time.Now()
+	r.sendParked = ""
 	if v := r.send2(mirror(it)); v != nil {
 		return v
 	}
 	if v := r.waitConsumed(r.p2, true); v != nil {
+		return v
+	}
+	if v := r.lat.single(r, true, time.Since(t0)); v != nil {
 		return v
 	}
 	if ph != nil {
@@ -553,6 +573,7 @@ func run(c Case) *pbt.Violation {
 	// later packet is offered to its queue, so the small queue is certainly full after the stall phase
 	flowing := map[*attached]bool{}
 	stallOne := func(a *attached) {
+		r.inStal = true // from now on a slow send is looked at (parked fan-out?)
 		if a.rs != nil && a.spec.Mode == "stall" && a.conn.TotalReceived() > bytesAtJoin[a] {
 			flowing[a] = true
 		}
@@ -574,14 +595,20 @@ func run(c Case) *pbt.Violation {
 		}
 	}
 	for k := next; k < len(c.Items); k++ {
-		r.p.WaitIdle()
 		stallNow(k)
 		r.grantSlow(1)
+		t0 := time.Now()
+		r.sendParked = ""
 		if v := r.send(c.Items[k]); v != nil {
 			return v
 		}
+		if v := r.waitConsumed(r.p, false); v != nil {
+			return v
+		}
+		if v := r.lat.single(r, false, time.Since(t0)); v != nil {
+			return v
+		}
 	}
-	r.p.WaitIdle()
 	for _, a := range cons { // everyone who was to stall before the end of the generated part is stalled now
 		if a.spec.Stall && !stalled[a] {
 			stalled[a] = true
@@ -766,6 +793,12 @@ func run(c Case) *pbt.Violation {
 						}
 					}
 				}
+				for hi, h := range cons {
+					// TS / RTSP consumers: judged at the transport (bytes reached them between the sweeps, lal closed its end)
+					if !h.spec.Stall && h.rc == nil && h.conn.TotalReceived() != recvAtTick1[h] && h.conn.PeerGone() {
+						return pbt.V("S4/healthy-consumer-swept/"+h.spec.Kind, "healthy consumer %d (%s) was disconnected by the liveness sweep although %d bytes were written to it between the sweeps", hi, h.spec.Kind, h.conn.TotalReceived()-recvAtTick1[h])
+					}
+				}
 				if r.c2 != nil && r.c2.rc != nil {
 					time.Sleep(time.Millisecond)
 					if r.c2.rc.Ended() {
@@ -808,7 +841,7 @@ func run(c Case) *pbt.Violation {
 	}
 	// (S3) a consumer that resumed in the middle of the stall phase and is still connected gets the continuation
 	for i, a := range cons {
-		if a.resumedAt < 0 || a.rc == nil {
+		if a.resumedAt < 0 {
 			continue
 		}
 		if v := r.checkContinuation(a, i); v != nil {
@@ -824,16 +857,17 @@ func run(c Case) *pbt.Violation {
 	}
 	// (S3) framing and unit integrity of every consumer, stalled or not
 	index := indexOf(r.P)
+	pub := newPublished(c.Codecs, r.items)
 	for i, a := range cons {
 		// give resumed consumers the chance to drain: wait for EOF or quiescence
 		settle(a)
-		if v := checkFraming(a, i, index); v != nil {
+		if v := checkFraming(a, i, index, pub); v != nil {
 			return v
 		}
 	}
 	if r.c2 != nil {
 		settle(r.c2)
-		if v := checkFraming(r.c2, -1, indexOf(r.P2)); v != nil {
+		if v := checkFraming(r.c2, -1, indexOf(r.P2), newPublished(c.Codecs, r.items2)); v != nil {
 			return v
 		}
 		if v := r.checkComplete(r.c2); v != nil {
@@ -997,6 +1031,7 @@ func (r *runner) awaitDrain(a *attached, before int64) int {
 			prev, stable = cur, 0
 		}
 	}
+	a.recvAtDrain = a.conn.TotalReceived()
 	return len(r.P)
 }
 
@@ -1004,6 +1039,22 @@ func (r *runner) awaitDrain(a *attached, before int64) int {
 // must be given units published after it resumed (which ones is not asserted: its queue may still have been full
 // for a while).  Its connection may have been closed by lal before it resumed (write timeout): not judged then.
 func (r *runner) checkContinuation(a *attached, i int) *pbt.Violation {
+	if a.rc == nil {
+		// TS / RTSP: the remuxed stream has no message identity at this point; bytes must have kept arriving
+		deadline := time.Now().Add(lalclient.DeliverTimeout)
+		for a.conn.TotalReceived() <= a.recvAtDrain {
+			if a.conn.PeerGone() {
+				pbt.Count("resumed-consumer-was-disconnected", 1)
+				return nil
+			}
+			if time.Now().After(deadline) {
+				return pbt.V("S3/resumed-consumer-gets-nothing/"+a.kind(), "consumer %d (%s) resumed reading before published message %d and is still connected, but no byte reached it after its queue had drained (%d messages were published after that; %d bytes received in all)", i, a.kind(), a.resumedAt, len(r.P)-a.resumedAt, a.conn.TotalReceived())
+			}
+			time.Sleep(time.Millisecond)
+		}
+		pbt.Count("resumed-consumer-continuation-seen", 1)
+		return nil
+	}
 	after := map[[32]byte]bool{}
 	for k := a.resumedAt; k < len(r.P); k++ {
 		after[recKey(r.P[k])] = true
@@ -1161,7 +1212,7 @@ func settle(a *attached) {
 	}
 }
 
-func checkFraming(a *attached, ci int, index map[[32]byte][]int) *pbt.Violation {
+func checkFraming(a *attached, ci int, index map[[32]byte][]int, pub *published) *pbt.Violation {
 	who := fmt.Sprintf("consumer %d (%s mode=%s at=%d end=%s resume_at=%d)", ci, a.spec.Kind, a.spec.Mode, a.spec.StallAt, a.spec.End, a.spec.ResumeAt)
 	open := !a.spec.Stall || a.spec.End == "resume" // the connection was not closed by a sweep / write timeout that the case asked for
 	switch {
@@ -1218,6 +1269,9 @@ func checkFraming(a *attached, ci int, index map[[32]byte][]int) *pbt.Violation 
 			// dropping whole units leaves continuity-counter gaps; anything else is a framing defect
 			return pbt.V("S3/framing/ts", "%s: demuxer problem %s", who, pr)
 		}
+		if v := checkTsContent(who, pub, res); v != nil {
+			return v
+		}
 	case a.rs != nil:
 		if a.rs.ws != nil && a.rs.ws.FrameErr != nil {
 			return pbt.V("S3/framing/wsrtsp", "%s: websocket framing: %v", who, a.rs.ws.FrameErr)
@@ -1229,6 +1283,9 @@ func checkFraming(a *attached, ci int, index map[[32]byte][]int) *pbt.Violation 
 			if _, err := rtpref.Parse(f.Payload); err != nil {
 				return pbt.V("S3/framing/rtsp", "%s: interleaved frame %d (channel %d, %d bytes) is not an RTP packet: %v", who, n, f.Channel, len(f.Payload), err)
 			}
+		}
+		if v := checkRtpContent(who, pub, a.rs.got); v != nil {
+			return v
 		}
 		select {
 		case err := <-a.rs.err:
